@@ -163,3 +163,50 @@ Example C12_nonvacuous_foreign :
     LUnlock 0; LCompl 0 3; LBlock 0; LWake 2; LLock 2; LEvW 2 2; LHookStop 2; LUnlock 2; LEvO 2; LKickO 2; LTFin 2; LWake 0;
     LEvO 0; LTJoin 0 2; LEvO 0; LBlock 0; LQuiescent] = true.
 Proof. vm_compute. reflexivity. Qed.
+
+(* ---- tie (a), round 9: the guards of the critical sections ARE the current C text of src/iv_work.c (MT/WorkLink2.v;
+   Gen/LeafWork.v is re-translated by gen/c2gallina.py on every run of this check) ---- *)
+From Ivv Require Import Base.CSem Gen.LeafWork MT.WorkLink2.
+Import ListNotations.
+Local Open Scope Z_scope.
+
+Theorem C12_thread_needed_is_the_code :
+  forall p,
+  match work_needed_test (zb (nilb (pidle p))) (pstarted p) (pmax p) with
+  | Some start => Some (if start then (p_set_started (pstarted p + 1) p, [FCreate]) else (p, []))
+  | None => None
+  end = Some (cs_needed p).
+Proof. exact cs_needed_is_the_code. Qed.
+Print Assumptions C12_thread_needed_is_the_code.
+
+Theorem C12_submit_chain_is_the_code :
+  forall p isown i,
+  cs_submit p isown i =
+  if Z.of_nat (length (pitems p)) + 1 <? 2147483648 then
+    let p1 := p_set_items (pitems p ++ [i]) (p_set_tail ((ptail p + 1) mod M32) p) in
+    match work_submit_idle (zb (nilb (pidle p))), work_submit_room (pstarted p) (pmax p), work_submit_owner (zb isown) with
+    | Some idle, Some room, Some owner =>
+        if idle then match pidle p with w :: _ => Some (p1, Some w, [FPostW w]) | [] => None end
+        else if room then
+          if owner then Some (p_set_started (pstarted p + 1) p1, None, [FCreate])
+          else Some (p1, None, [FPostO EvNeeded])
+        else Some (p1, None, [])
+    | _, _, _ => None
+    end
+  else None.
+Proof. exact cs_submit_is_the_code2. Qed.
+Print Assumptions C12_submit_chain_is_the_code.
+
+Theorem C12_completion_post_is_the_code :
+  forall p w wr i last,
+  cs_after p w wr i last =
+  match work_done_was_empty (zb (nilb (pdone p))) with
+  | Some was_empty =>
+      match cs_loop (p_set_done (pdone p ++ [i]) p) w wr last with
+      | None => None
+      | Some (p', pc, e) => Some (p', pc, (if was_empty then [FPostO EvWork] else []) ++ e)
+      end
+  | None => None
+  end.
+Proof. exact cs_after_post_is_the_code. Qed.
+Print Assumptions C12_completion_post_is_the_code.
